@@ -122,6 +122,7 @@ class GuardView:
         # names written by nested closures via nonlocal, keyed by closure name; a call to the
         # closure between a test and a use invalidates atoms over those names
         self.closure_writes = closure_writes or {}
+        self._raise_tests = None
 
     def guard_atoms(self, n: Node, stable_only: bool = True, after_loops: bool = True) -> set[str]:
         """after_loops=False drops the exit conditions of loops that ended before n (`F:stack` after `while stack:`):
@@ -131,6 +132,8 @@ class GuardView:
             t = b.test
             if not after_loops and not b.pol and (t.kind == "for" or getattr(t, "note", "") == "while"):
                 continue
+            if not after_loops and self._is_validation(b):
+                continue  # `if bad_input: raise ...` holds on every path that goes on, it does not select n either
             if t.kind == "for":
                 out.add(("IN-LOOP:" if b.pol else "AFTER-LOOP:") + _u(t.ast.iter))
                 continue
@@ -144,6 +147,21 @@ class GuardView:
                 ats = {a for a in ats if not (self._atom_names(a, test) & killed)}
             out |= ats
         return out
+
+    def _is_validation(self, b: Node) -> bool:
+        """b is the surviving branch of a test whose other branch only raises"""
+        if self._raise_tests is None:
+            self._raise_tests = {}
+            root = self.cfg.fn if hasattr(self.cfg, "fn") else None
+            if root is not None:
+                for x in ast.walk(root):
+                    if isinstance(x, ast.If):
+                        if x.body and all(isinstance(y, ast.Raise) for y in x.body) and not x.orelse:
+                            self._raise_tests[id(x.test)] = False  # surviving polarity
+                        elif x.orelse and all(isinstance(y, ast.Raise) for y in x.orelse):
+                            self._raise_tests[id(x.test)] = True
+        pol = self._raise_tests.get(id(b.test.ast))
+        return pol is not None and pol == b.pol
 
     def _atom_names(self, atom: str, test: ast.AST) -> set[str]:
         ns = names_in(test)
